@@ -687,6 +687,8 @@ class Interp:
             vals = [self.rv(a) for a in args if a.get("kind") != "CXXDefaultArgExpr"]
             if not vals:
                 return []
+            if isinstance(vals[0], list):
+                return list(vals[0])
             cnt = self.conc(vals[0], "std::vector size")
             return [vals[1] if len(vals) > 1 else 0] * cnt
         if "basic_string" in q or q == "std::string":
@@ -782,6 +784,12 @@ class Interp:
         if isinstance(base, list):
             if name == "size":
                 return len(base)
+            if name == "reserve":
+                return None
+            if name == "push_back":
+                v = self.rv(argn[0])
+                base.append(v)
+                return None
             raise xa.HarnessError("std::vector method %s is not modelled" % name)
         if isinstance(base, Obj):
             fn = self.p.find(base.cls, name, len(argn))
@@ -857,7 +865,7 @@ class Native:
         with open(src, "w") as f:
             f.write(_DRIVER_TMPL % {"includes": "\n".join('#include "%s"' % os.path.join(repo, i) for i in includes), "main": main_src})
         self.exe = os.path.join(self.dir, "driver_" + tag)
-        cmd = [CLANG, "-std=c++17", "-O1", "-g", "-fsanitize=undefined,bounds", "-fno-sanitize-recover=undefined", "-I" + os.path.join(repo, "src"), src, "-o", self.exe]
+        cmd = [CLANG, "-std=c++17", "-O1", "-g", "-fsanitize=undefined,bounds", "-fno-sanitize-recover=undefined", "-D_GLIBCXX_ASSERTIONS", "-I" + os.path.join(repo, "src"), src, "-o", self.exe]
         p = subprocess.run(cmd, capture_output=True, text=True)
         if p.returncode != 0:
             raise xa.HarnessError("native twin does not compile: %s" % p.stderr[-600:])
